@@ -14,15 +14,11 @@
 (* the same definitions serve the model-checking specs, the trace specs    *)
 (* and the judge (which evaluates them on data observed from real code).   *)
 (***************************************************************************)
-EXTENDS Naturals, Sequences, FiniteSets
+EXTENDS Base
 
-CONSTANTS Nil,        \* "no parent"
-          NonNode,    \* an argument that is not a tree node (strict kinds refuse it)
+CONSTANTS NonNode,    \* an argument that is not a tree node (strict kinds refuse it)
           MaxStack    \* bound of the Python call stack (frames of mutator calls)
 
-Rm(s, x) == SelectSeq(s, LAMBDA y: y # x)
-InSeq(s, x) == \E i \in 1..Len(s): s[i] = x
-HasDup(xs) == \E i, j \in 1..Len(xs): i < j /\ xs[i] = xs[j]
 
 \* n and its ancestors. Fuel-bounded so that it terminates on corrupt (cyclic) observed data.
 RECURSIVE AncF(_, _, _)
